@@ -42,6 +42,16 @@ def finding_key(req, obs, detail):
             # TypeRegistry::register_type: one defect, the message names the offending inner layer
             msg = "<non-scalar layer> inside vector/matrix"
         return "panic %s: %s" % (path, msg)
+    if (detail or "").startswith("FAIL:redeclared-defaults:"):
+        # one defect (check_existing_functions hands back the first declaration's id and parse_function drops the later
+        # signature with its non_default_params); the oracle gives this detail only when the verdict is exactly the one
+        # of the first declaration's default arguments and passes every other judgement under that reading
+        return "redeclared default arguments: only the first declaration's default values count"
+    if (detail or "").startswith("FAIL:redeclared-template:"):
+        # one defect (two declarations of one function template whose parameter types mention a template parameter have
+        # different param_types - each registers its own TypeId for T - and are not combined); the oracle gives this
+        # detail only for an ambiguity that names a redeclared template twice and is right once it is named once
+        return "redeclared function template: every declaration is an overload of its own"
     f = req.split("\t")
     if f[0] == "C16.resolve" and len(f) in (3, 4):
         # the finding is about the candidate *set* and the arguments, not about one declaration order
@@ -213,7 +223,18 @@ def search(ctx):
             d.insert(place, "o~%d~%s" % (sc, k))
             syms.append("C16.seq\t%s|c~%d~%s~" % ("|".join(d), sc, x))
     step2 = max(1, len(syms) // 3000)
-    return suspicious + syms[::step2] + seqs[::step] + rest[:6000]
+    # one function declared twice with other default arguments, next to an overload that takes the shorter list
+    redecl = []
+    n = 0
+    for a, b in itertools.permutations(params[:len(tys)], 2):
+        for x in args:
+            n += 1
+            first, later = ((2, 1), (1, 2), (2, 0), (0, 2))[n % 4]
+            kind = "pr"[n % 2]
+            redecl.append("C16.seq\td~0~0:%d:%s,%s|d~0~1:1:%s|%s~0~%d|c~0~%s~" % (first, a, b, b, kind, later, x))
+            redecl.append("C16.seq\td~0~0:%d:%s,%s|%s~0~%d|c~0~%s~|c~0~%s,%s~" % (first, a, b, kind, later, x, x, x))
+    step3 = max(1, len(redecl) // 2000)
+    return suspicious + redecl[::step3] + syms[::step2] + seqs[::step] + rest[:6000]
 
 
 SPEC = {
@@ -250,6 +271,10 @@ SPEC = {
         # symbols of the same name that are not functions: the gathering loop of find_identifier_in_scope
         "gathering_ignores_non_function_symbols", "non_function_symbol_changes_no_candidate",
         "same_name_symbols_take_no_candidate_away", "inner_type_hides_outer_overloads",
+        # a function declared more than once with other default arguments: what the code does (for all units), and the
+        # witness that this is order dependent (negation of the property for the declarations of one function)
+        "first_declaration_fixes_the_defaults", "redeclared_defaults_are_order_dependent",
+        "redeclared_template_is_a_second_overload",
         # the source text of the transcribed routines, re-extracted each run
         "resolve_shape_as_modelled", "resolution_reads_no_call_history", "resolve_source_as_transcribed"]],
     "harness": "c16",
@@ -284,7 +309,16 @@ SPEC = {
                   "non_function_symbol_changes_no_candidate), so the site theorem holds with such declarations at every "
                   "place of the unit (same_name_symbols_take_no_candidate_away); a scope that declares a type of the name "
                   "and no function hides the outer overloads, a cbuffer or namespace of the name does not "
-                  "(inner_type_hides_outer_overloads). The rank tables and the text of the transcribed routines are re-extracted from the "
+                  "(inner_type_hides_outer_overloads). A function declared more than once (prototype + definition, several prototypes) "
+                  "with other default arguments: the walk has an item `redecl` that changes nothing - check_existing_functions hands "
+                  "back the first declaration's id and parse_function drops the later signature with its non_default_params - and "
+                  "first_declaration_fixes_the_defaults proves for every unit that such an item changes the verdict of no call site; "
+                  "that this makes the verdict depend on the order of the declarations of one function is proved as a witness "
+                  "(redeclared_defaults_are_order_dependent: the NEGATION of the property on that input class, replayed on the real "
+                  "type checker, recorded as a known finding); a function template whose parameter types mention a template parameter "
+                  "is not recognised as declared before: every later declaration is one more overload (`elaborate`), a call after "
+                  "prototype + definition is ambiguous between the function and itself (redeclared_template_is_a_second_overload: "
+                  "second witness and known finding). The rank tables and the text of the transcribed routines are re-extracted from the "
                   "source each run (a reshaped loop stops the theorems from checking), and so are every path through "
                   "`context` in the resolution routines and the field list of the typer's Context "
                   "(resolution_reads_no_call_history: a memo of resolved calls is a new field and a new path); the model is compared with the real "
@@ -326,6 +360,17 @@ SPEC = {
             "innermost scope that knows the name declares a type of it and no function, the call has to be taken for a "
             "constructor (`type`: Constructor node / ConstructorWrongArgumentCount / WrongTypeInConstructor / "
             "ExpectedExpressionReceivedType). "
+            "Items `p~<id>~<nd>` / `r~<id>~<nd>` declare (prototype) / define the function <id> AGAIN with default values on the "
+            "parameters from <nd> on (stream 12: prototype then definition, definition then prototype, two prototypes and a "
+            "definition; defaults on the first declaration only, on a later one only, on both, on none; ordinary functions "
+            "and function templates with and without a template parameter in their parameter types; next to an overload that "
+            "takes the shorter argument list; root scope and reopened namespace; the same calls after every declaration; every "
+            "unit also with the two declarations exchanged). Oracle: the candidate is the FUNCTION - a trailing parameter has "
+            "a default value if any declaration above the call gives it one - so the verdict may not depend on which "
+            "declaration stands first; a verdict that is exactly the one of the first declaration's defaults (and passes every "
+            "other judgement under that reading) is reported as `redeclared-defaults`, an ambiguity that names a redeclared "
+            "template twice and is right once it is named once as `redeclared-template` (the two known findings); a unit that "
+            "defines no function twice and whose declarations alone are refused as a redefinition is a FAIL. "
             "C16.conv requests = one row of the exhaustive find/get_rank/"
             "get_target_type table over 8 scalar kinds x {scalar, vec1-4, 2 matrices} + enums + structs x "
             "{none,const,volatile} x {lvalue,rvalue}. non-trivial = at least two candidates / a table row.",
@@ -391,6 +436,15 @@ SPEC = {
         "call refused inside a struct template's method body shows no reason (`rej`: the type checker reports the use of "
         "the template instead); three-level scope chains (N::K) and forward-declared callers are covered by the "
         "one-call paths / by experiment only",
+        "a function declared more than once: modelled for ordinary free functions and function templates in the root scope / "
+        "one namespace (C16.seq items p~ / r~<id>~<nd>); that a later declaration of a template is a further overload exactly "
+        "when its parameter types mention a template parameter is `Model.Overload.elaborate`, a hand-written reading tied to the "
+        "code by the correspondence run and the witness theorem only (check_existing_functions' comparison of param_types and "
+        "check_similar_template_params are not fingerprinted); methods cannot be redeclared (a prototype and a definition of one "
+        "method in a struct body is a redefinition error) and out-of-line definitions `R N::f(..)` / `R S::f(..)` do not parse; "
+        "the intrinsic path with redeclared user overloads is accepted by the protocol but not generated",
+        "default values on template-typed parameters (`T b = (T)0`, `vector<T,n> b = ..`) are generated since wave 13; the model's "
+        "arity guard is independent of the parameter types, no new model code was needed",
         "check_output_arguments beyond the type of the (converted) argument - the walk of check_mutable_place through "
         "member / swizzle / subscript expressions to the variable - depends on the argument expression, not on its type: "
         "not modelled (C03 owns it); the generated programs pass locals, members of a non-const local struct, static "
